@@ -21,8 +21,9 @@
          extension AND p advertised it (and the peer-initiated limits admit it); a TestExtension RPC reaches the
          test extension ONLY IF both sides advertised it; NEVER a call into an extension the node does not have
          (no crash); once both control messages have crossed, the test extension answers with ONE TestExtension RPC.
-   X04.j Suppression.   A full message of topic t (published, forwarded) is NEVER sent to a peer whose subscription
-         requested partial messages for t while the node supports partial messages on t, nor an IHAVE for t; a peer
+   X04.j Suppression.   A full message of topic t (published, forwarded) is NEVER sent to a peer that advertised the
+         extension and whose subscription requested partial messages for t while the node supports partial messages
+         on t, nor an IHAVE for t; a peer
          that supports partial messages on a topic the node REQUESTS them on gets no IDONTWANT; every other peer is
          served as usual (a requester is served in full when the node does not support partial messages on t); the
          flags recorded per peer and topic are requestsPartial = sent flag, supportsPartial = requests or supports.
